@@ -110,6 +110,28 @@ CLAIMED = {
         note="After BREAK only the call log is compared; node identity across rebuilt nodes is (kind, loc); the I-spec VisitLoop of the design is not built (the P-spec decides).",
         technique="TLC evaluation of recorded visit() runs against the recursive contract VisitContract.tla",
     ),
+    "C14": dict(
+        category="model_checking",
+        text=("Differential against a transcription of the specification's algorithm: FieldMerge.tla implements FieldsInSetCanMerge / SameResponseShape "
+              "un-optimised (every selection set, fragments expanded under a visited set, coinductive guard on cyclic spreads, meta fields typed as the "
+              "specification types them). Seeded documents (4 000 quick / 40 000 thorough; colliding aliases, nested and mutually recursive fragments, the same "
+              "fragment under exclusive and non-exclusive parents, arguments incl. variables and input objects in both key orders, aliased __typename) are "
+              "validated by the real rule under a watchdog; TLC evaluates SpecConflict on each: reported >= 1 error iff the specification finds a conflict."),
+        design_ref="DESIGN.md 5/C14",
+        note="Trusted: FieldMerge.tla as the reading of section 5.3.2; argument equality after normalisation; the memoising I-spec MergeOpt of the design is not built.",
+        technique="TLC evaluation of a transcribed specification algorithm (FieldMerge.tla) on recorded documents vs the real rule",
+    ),
+    "C16": dict(
+        category="model_checking",
+        text=("Scalars.tla states the value domains of the built-in scalars and enums over value descriptors (exact rationals as base-2^15 limbs so that 2^31, "
+              "2^53+1 and 10^400 are exact): InDomain, Faithful (an integer input is never changed silently, floats pass unchanged, Boolean/String/ID keep their "
+              "meaning) and SameMeaning for the emitted value fed back to the type's input coercion. A boundary palette plus seeded numbers/strings (400 quick / "
+              "5 000 thorough values incl. bytes, containers, Decimal/Fraction, subclasses, custom __str__) x 5 scalars x 6 generated enums goes through "
+              "coerce_output_value directly and through leaf positions of executed responses; TLC evaluates every record."),
+        design_ref="DESIGN.md 5/C16",
+        note="Descriptors are computed by harness code with exact Fraction arithmetic; an integer spelled as text and rounded by Float is reported as MODEL-DRIFT only.",
+        technique="TLC evaluation of serialisation records against the domain predicates of Scalars.tla",
+    ),
     "C09": dict(
         category="model_checking",
         text=("TLC checks the grammar theorems (spans disjoint/ordered with ignored gaps, filler insertion at every boundary invisible, Strip laws) on every string "
